@@ -159,6 +159,24 @@ pub fn fd_id(fd: RawFd) -> String {
     format!("{}:{}", st.st_dev, st.st_ino)
 }
 
+/// Identity of the open file behind a descriptor that also tells eventfds apart (they share one anonymous inode; the
+/// kernel numbers them in /proc/<pid>/fdinfo).
+pub fn fd_ident(fd: RawFd) -> String {
+    if let Ok(info) = std::fs::read_to_string(format!("/proc/self/fdinfo/{fd}")) {
+        for l in info.lines() {
+            if let Some(v) = l.strip_prefix("eventfd-id:") {
+                return format!("efd:{}", v.trim());
+            }
+        }
+    }
+    fd_id(fd)
+}
+
+/// How many descriptors of this process refer to the open file `ident`?
+pub fn count_ident(ident: &str) -> usize {
+    open_fds().into_iter().filter(|fd| fd_ident(*fd) == ident).count()
+}
+
 pub fn fd_is_open(fd: RawFd) -> bool {
     // SAFETY: fcntl on arbitrary number is harmless.
     unsafe { libc::fcntl(fd, libc::F_GETFD) != -1 }
